@@ -420,7 +420,12 @@ def build(index, contracts, specs, rec, fid, keep_ends=False):
                 g = ex.eval_clause(con, clause, cenv, p)
             except PathAbort:
                 continue
-            ob = ctx.oblige(p, f'post:{name}', f'postcondition {name}', g, clause.lineno, tactic=con.tactics.get(name), meta={'clause': name})
+            # a clause that fixes a listing as a sequence (exact order): the properties fix only the elements (DESIGN 9.9)
+            src = ast.unparse(clause)
+            ret_ann = ast.unparse(fi.node.returns) if fi.node.returns is not None else ''
+            listing = ('seq_eq(' in src) or (name == 'post' and con.functional is not None and ret_ann.startswith('list['))
+            ob = ctx.oblige(p, f'post:{name}', f'postcondition {name}', g, clause.lineno, tactic=con.tactics.get(name),
+                            meta={'clause': name, 'listing': listing})
     if con.raises_when is not None and con.raises:
         # the exception must be raised when the condition holds: no normal return under it
         for p in ends:
@@ -749,6 +754,8 @@ def discharge(ctx, ob, timeout_ms=None, outside=None, known_ids=()):
 def _discharge(ctx, ob, timeout_ms=None, outside=None, known_ids=()):
     timeout_ms = timeout_ms or Z3_TIMEOUT_MS
     res = {'id': ob.id, 'kind': ob.kind, 'desc': ob.desc, 'lineno': ob.lineno}
+    if (getattr(ob, 'meta', None) or {}).get('listing'):
+        res['listing'] = True
     t0 = time.time()
     # lemma obligations see only the axioms that existed when they arose (plus definitional extensions)
     ctx.axiom_limit = getattr(ob, 'n_axioms', None) if ob.kind.startswith('lemma') else None
